@@ -251,6 +251,27 @@ class Expect:
                     out.append((f"all-complete:{fname}", ["C05", "C06"],
                                 z3.Implies(cond, z3.Or(*hit) if hit else z3.BoolVal(False)),
                                 f"rejected field {fname} is not reported under DebugTrail.ALL"))
+            # every mapping node that lacks a required key reports it (once per node)
+            from adaptix._internal.morphing.load_error import NoRequiredFieldsLoadError
+            for cnode, sn, reached, path in self.nodes:
+                if not isinstance(cnode, DictNode):
+                    continue
+                missing = []
+                for key, child in cnode.children.items():
+                    if isinstance(child, Leaf) and self.fields[child.field].required:
+                        missing.append(z3.Not(sn.entries[key][0]))
+                if not missing:
+                    continue
+                cond = z3.And(reached, self.kind_ok(cnode, sn), z3.Or(*missing))
+                hits = []
+                for l in leaves:
+                    if l.ty is NoRequiredFieldsLoadError and l.tag and l.tag[0] == "exc_fields":
+                        iv = l.tag[1].get("input_value")
+                        if iv is not None and iv.kind == "node":
+                            hits.append(z3.BoolVal(iv.d is sn))
+                n_hits = z3.Sum(*[z3.If(h, 1, 0) for h in hits]) if hits else z3.IntVal(0)
+                out.append((f"all-missing-reported@{path}", ["C05", "C06"], z3.Implies(cond, n_hits == 1),
+                            f"missing required keys of the mapping at {path} are not reported exactly once"))
             # exactly once: two reported leaves never stem from the same failing call
             sym = [interp.term(s, l) for l in leaves if l.ty is None]
             if len(sym) > 1:
